@@ -85,9 +85,16 @@ def c04(tier: str) -> list[dict[str, Any]]:
         plan("G1 3 workers converge on one chain", trav.menu("G1x3"), m, K=1, statuses=["PASS", "FAIL"], max_nonpass=1),
         plan("G2 max_tries=2 (concurrency limit 2)", trav.menu("G2", params={"max_tries": "2"}, label="G2-tries2"), m, K=1, statuses=["PASS", "FAIL"], max_nonpass=1),
         plan("G3 per-worker scope", trav.menu("G3", params={"pool_scope": "own cluster shared"}, label="G3-noswarm"), m, K=1, statuses=["PASS"], pool_fixed=DEEP),
+        plan("G1 retries with explicit max_concurrent_tries=0 (serial)", trav.menu("G1", params={"max_tries": "2", "max_concurrent_tries": "0", "stop_status": "pass"}, label="G1-mct0"), m, K=1, statuses=["PASS", "FAIL"], max_nonpass=1, pool_fixed={"install": ["shared"]}),
+        plan("virtual time: G1 2 workers, durations symbolic below test_timeout=1 (creation and chain)", trav.menu("G1", params={"test_timeout": "1"}, label="G1-timed"), m + [M.c03], timed=True, statuses=["PASS"],
+             bounds={"time": "every execution lasts a symbolic real duration in (0, test_timeout); back-off sleeps as computed by the code; event order decided by the solver, long executions first"}),
+        plan("virtual time: G1 2 workers, setup present (2 executions)", trav.menu("G1", params={"test_timeout": "1"}, label="G1-timed-short"), m + [M.c03], timed=True, statuses=["PASS"], pool_fixed={"install": ["shared"], "customize": ["shared"]}),
     ]
     if tier == "thorough":
         out += [
+            plan("virtual time: G2 2 workers", trav.menu("G2", params={"test_timeout": "1"}, label="G2-timed"), m + [M.c03], timed=True, statuses=["PASS"]),
+            plan("virtual time: G1 3 workers", trav.menu("G1x3", params={"test_timeout": "1"}, label="G1x3-timed"), m + [M.c03], timed=True, statuses=["PASS"]),
+            plan("virtual time: G1 2 workers max_tries=2", trav.menu("G1", params={"test_timeout": "1", "max_tries": "2", "stop_status": "pass"}, label="G1-timed-tries2"), m, timed=True, statuses=["PASS", "FAIL"], max_nonpass=1),
             plan("G2 3 workers K=2", trav.menu("G2x3"), m, K=2, statuses=["PASS", "FAIL"], max_nonpass=1),
             plan("G2 max_concurrent_tries=1 with max_tries=3", trav.menu("G2", params={"max_tries": "3", "max_concurrent_tries": "1"}, label="G2-mct1"), m, K=1, statuses=["PASS", "FAIL"], max_nonpass=2),
             plan("G6 per-swarm scope", trav.menu("G6", params={"pool_scope": "own swarm shared"}, label="G6-nocluster"), m, K=1, statuses=["PASS"], pool_fixed=DEEP),
